@@ -160,4 +160,13 @@ CHECKS = {
                 'unterminated quotes/here-documents must be SYNTAX_ERROR located at the instruction; plus seeded longer strings.',
         'note': _TB + '; quoted fragments spanning lines, CR/FF/NUL are not generated; two open known findings (mixed-quote token, here-document marker charset)',
     },
+    'C11': {
+        'category': 'exploration',
+        'technique': 'runtime monitoring: history checker — probe records (environment, cwd, argv) and process-boundary records (env, timeout, cwd) at every point of a generated instruction sequence compared with a reference state machine',
+        'text': 'Every history of <=2 setting instructions over a 16-letter alphabet and of 3 over a 5-letter alphabet, in every '
+                'order-preserving distribution over setup/before-assert/assert/cleanup, with a probe after every instruction and as the '
+                'action (4867 histories), plus seeded histories of 4..10 settings: each probe must see the environment set (act / non-act), '
+                'current directory, timeout and symbol values that the reference state gives after the preceding instructions.',
+        'note': _TB + '; real timeouts/kills belong to C19; values never contain braces',
+    },
 }
